@@ -52,7 +52,9 @@ def _label_key(labels, kind, rng):
 def probes(ctx):
     from sfmon.gen.frames import SeriesSpec
     return [{'kind': 'series', 'spec': SeriesSpec([0, 1, 2, 3], 'auto', 'int64', [10, 11, 12, 13], None),
-             'route': 'loc', 'key': ('label', -1)}]
+             'route': 'loc', 'key': ('label', -1)},
+            {'kind': 'series', 'spec': SeriesSpec(['a', 'b', 'c', 'd', 'e'], 'str', 'int64', [10, 11, 12, 13, 14], None),
+             'route': 'loc', 'key': ('lslice', 'd', 'b', -1)}]
 
 
 def generate(ctx):
